@@ -8,6 +8,7 @@
      20        three-line strings around empty and blank-only lines
      21        unquoted and single-quoted strings
      22, 23    concatenations of two / three pieces: forms x contents x trivia around +
+     24        all runs of two and three elements over \\ \n \t \" n t r and plain text
      100, 101  NRand / 2 layouts each, drawn at random from all the menus (TLC -seed)
    Size selects the menus: "quick" or "thorough".                                 *)
 EXTENDS YangString, Json, SequencesExt, FiniteSets, TLC
@@ -129,6 +130,15 @@ Concat3(u_) == UNION {LET pre == Pres[p]  M == PieceMenu(QC(pre)) IN
            : a \in {1, 2, 5, 11}, b \in 1..Len(M), c \in {1, 2, 6, 9, 10}, j \in 1..Len(Joins)}
   : p \in ConcatPres}
 
+\* family 24: runs of two and three elements over the four escapes and the plain characters that look like one when a
+\* backslash happens to stand before them (n, t, r, a quote-free word): \\ directly followed by n is a backslash and an n
+EscEl == << <<BSL, BSL>>, <<BSL, 110>>, <<BSL, 116>>, <<BSL, DQ>>, C("n"), C("t"), C("r"), C("x y") >>
+EscRuns == {EscEl[a] \o EscEl[b] : a \in 1..Len(EscEl), b \in 1..Len(EscEl)}
+           \cup {EscEl[a] \o EscEl[b] \o EscEl[c] : a \in 1..Len(EscEl), b \in 1..Len(EscEl), c \in 1..Len(EscEl)}
+Escapes(u_) == {Vec(24, Pres[1], <<D(r)>>, << >>, TailMenu[1]) : r \in EscRuns}
+               \cup {Vec(24, Pres[5], <<D(C("C:") \o r \o <<LF>> \o C("     ") \o r)>>, << >>, TailMenu[1]) : r \in EscRuns}
+               \cup {Vec(24, Pres[1], <<S(r), D(r)>>, <<Joins[1]>>, TailMenu[1]) : r \in EscRuns}
+
 \* family 100: everything at random
 RE(seq) == seq[RandomElement(1..Len(seq))]
 RandDq(q) == LET n == RandomElement(1..4)  e == RE(Eols) IN
@@ -142,8 +152,8 @@ Random(u_) == {RandVec(k) : k \in 1..(NRand \div 2)}
 
 \* (the big sets take a dummy parameter: TLC evaluates every parameterless definition once at start-up, single-threaded)
 Cases == IF fam <= Len(Pres) THEN TwoLines(fam)
-         ELSE IF fam = 20 THEN ThreeLines(0) ELSE IF fam = 21 THEN Plain(0) ELSE IF fam = 22 THEN Concat2(0) ELSE IF fam = 23 THEN Concat3(0) ELSE Random(0)
-GInit == fam \in PreFams \cup {20, 21, 22, 23, 100, 101} /\ done = FALSE
+         ELSE IF fam = 20 THEN ThreeLines(0) ELSE IF fam = 21 THEN Plain(0) ELSE IF fam = 22 THEN Concat2(0) ELSE IF fam = 23 THEN Concat3(0) ELSE IF fam = 24 THEN Escapes(0) ELSE Random(0)
+GInit == fam \in PreFams \cup {20, 21, 22, 23, 24, 100, 101} /\ done = FALSE
 GNext == /\ ~done /\ done' = TRUE /\ UNCHANGED fam
          /\ ndJsonSerialize("vec_" \o ToString(fam) \o ".ndjson", SetToSeq(Cases))
 =============================================================================
